@@ -146,8 +146,20 @@ def replay(cfg, inputs, check, info):
 
     if cfg.get("kind") == "int2name":
         i, j = int(inputs["i"]), int(inputs.get("j", inputs["i"]))
-        a, b = utils.int2name(i), utils.int2name(j)
         bad = []
+
+        def key(nm):
+            return (len(nm), nm)
+
+        if cfg.get("history") == "successor":
+            a, b, a2 = utils.int2name(i), utils.int2name(i + 1), utils.int2name(i)
+            if not (key(a) < key(b)) or a2 != a:
+                bad.append("asked in the order %d, %d, %d int2name gives %r, %r, %r: not increasing in length-then-alphabetical order / not repeatable" % (i, i + 1, i, a, b, a2))
+        elif cfg.get("history") == "interleaved":
+            b, a, b2 = utils.int2name(j), utils.int2name(i), utils.int2name(j)
+            if i < j and (b2 != b or not (key(a) < key(b2))):
+                bad.append("asked in the order %d, %d, %d int2name gives %r, %r, %r: a name depends on what was asked before" % (j, i, j, b, a, b2))
+        a, b = utils.int2name(i), utils.int2name(j)
         if i < j and not ((len(a), a) < (len(b), b)):
             bad.append("int2name(%d) = %r is not before int2name(%d) = %r in length-then-alphabetical order" % (i, a, j, b))
         for k, nm in ((i, a), (j, b)):
@@ -194,9 +206,25 @@ def replay(cfg, inputs, check, info):
 
 CH_SRC = '''
 from typing import Tuple
-from labella.utils import int2name
+import copy
+import types
+import labella.utils as _utils
 
 BOUND = %(bound)d
+
+# module-level data of labella.utils as it is in a fresh process: every harness starts from it, so that each explored path is
+# a history that begins in a fresh process (and paths do not leak state into each other)
+_SNAP = {k: copy.deepcopy(v) for k, v in vars(_utils).items() if not k.startswith("__") and not isinstance(v, (types.ModuleType, types.FunctionType, type))}
+
+
+def _fresh() -> None:
+    for k, v in _SNAP.items():
+        setattr(_utils, k, copy.deepcopy(v))
+
+
+def int2name(i):
+    return _utils.int2name(i)
+
 
 
 def _len_of(i: int) -> int:
@@ -213,6 +241,7 @@ def order(i: int, j: int) -> bool:
     pre: 0 <= i < j <= BOUND
     post: _
     """
+    _fresh()
     a = int2name(i)
     b = int2name(j)
     return (len(a), a) < (len(b), b)
@@ -223,6 +252,7 @@ def alphabet(i: int) -> str:
     pre: 0 <= i <= BOUND
     post: len(_) >= 1 and all(65 <= ord(c) <= 90 for c in _)
     """
+    _fresh()
     return int2name(i)
 
 
@@ -231,6 +261,7 @@ def length(i: int) -> int:
     pre: 0 <= i <= BOUND
     post: _ == _len_of(i)
     """
+    _fresh()
     return len(int2name(i))
 
 
@@ -239,7 +270,34 @@ def first(i: int) -> str:
     pre: i == 0
     post: _ == "A"
     """
+    _fresh()
     return int2name(i)
+
+
+def successor(i: int) -> bool:
+    """
+    pre: 0 <= i < BOUND
+    post: _
+    """
+    _fresh()
+    # history: names asked for in index order (what the TeX writer does), then the first one again
+    a = int2name(i)
+    b = int2name(i + 1)
+    a2 = int2name(i)
+    return (len(a), a) < (len(b), b) and a2 == a
+
+
+def interleaved(i: int, j: int) -> bool:
+    """
+    pre: 0 <= i < j <= BOUND
+    post: _
+    """
+    _fresh()
+    # history: j, i, j: a name never depends on what was asked before
+    b = int2name(j)
+    a = int2name(i)
+    b2 = int2name(j)
+    return b2 == b and (len(a), a) < (len(b2), b2)
 
 
 def witness(i: int, j: int) -> bool:
@@ -247,6 +305,7 @@ def witness(i: int, j: int) -> bool:
     pre: 0 <= i < j <= BOUND
     post: False
     """
+    _fresh()
     a = int2name(i)
     b = int2name(j)
     return (len(a), a) < (len(b), b)
@@ -270,7 +329,7 @@ def precheck(tier):
     t0 = time.time()
     p = subprocess.run([sys.executable, "-m", "crosshair", "check", "--report_all", "--per_condition_timeout", str(to), fn], capture_output=True, text=True, env=env, timeout=to * 8 + 120)
     out = (p.stdout + p.stderr).strip().splitlines()
-    res = dict(obligations=4, discharged=0, crosshair_seconds=round(time.time() - t0, 1), crosshair_output=out[:20], findings=[], samples=["order(i,j) 0<=i<j<=%d" % bound, "alphabet(i)", "length(i)", "first(0)"])
+    res = dict(obligations=6, discharged=0, crosshair_seconds=round(time.time() - t0, 1), crosshair_output=out[:20], findings=[], samples=["order(i,j) 0<=i<j<=%d" % bound, "alphabet(i)", "length(i)", "first(0)", "successor(i): history i, i+1, i", "interleaved(i,j): history j, i, j"])
     # map line numbers of the conditions to function names
     src = (CH_SRC % dict(bound=bound)).splitlines()
     def fn_at(line_no):
@@ -290,7 +349,7 @@ def precheck(tier):
         f = fn_at(int(m.group(1)))
         status.setdefault(f, []).append((m.group(2), m.group(3)))
     res["status"] = {k: v for k, v in status.items()}
-    for f in ("order", "alphabet", "length", "first"):
+    for f in ("order", "alphabet", "length", "first", "successor", "interleaved"):
         st = status.get(f, [])
         if any(s[0] == "error" for s in st):
             # counterexample: parse "when calling order(25, 50)"
@@ -304,7 +363,7 @@ def precheck(tier):
             inp = {"i": str(vals[0])} if vals else {"i": "0"}
             if len(vals) > 1:
                 inp["j"] = str(vals[1])
-            res["findings"].append((dict(name="crosshair-" + f, kind="int2name"), dict(check="int2name-" + f, inputs=inp, info=msg[:200])))
+            res["findings"].append((dict(name="crosshair-" + f, kind="int2name", history=f if f in ("successor", "interleaved") else None), dict(check="int2name-" + f, inputs=inp, info=msg[:200])))
         elif any("Confirmed over all paths" in s[1] for s in st):
             res["discharged"] += 1
         else:
